@@ -95,6 +95,11 @@ def finish(a, P, results, seed, t0):
         rc = 1
     for r in crashes:
         print(f'CHECKER-CRASH unit={r["unit"]}: {r["crash"]}', file=sys.stderr)
+    cross = [r['crosscheck'] for r in results if r.get('crosscheck')]
+    n_dis = sum(len(c['disagreements']) for c in cross)
+    for r in results:
+        for d in (r.get('crosscheck') or {}).get('disagreements', []):
+            print(f'CHECKER-DISAGREEMENT unit={r["unit"]} path={d["path"]}: proved clauses are false on the real code: {d["replay"].get("failed_clauses")}', file=sys.stderr)
     n_ob = len(obligations)
     n_ok = sum(1 for o in obligations if o['result'] == 'proved')
     all_ok = (n_ob > 0 and n_ok == n_ob and not undecided and not crashes)
@@ -115,6 +120,8 @@ def finish(a, P, results, seed, t0):
         'refuted': [{'obligation': v['obligation'], 'known': v.get('known'), 'replay_status': (v.get('replay') or {}).get('status')} for v in violations],
         'bounded': [{k: r.get(k) for k in ('unit', 'scope', 'evaluations', 'distinct_nontrivial', 'failures', 'exhaustive', 'wall_s')} for r in bounded],
         'vacuity_covers': sum(len(r.get('covers', [])) for r in results),
+        'engine_vs_cpython_crosscheck': {'paths_checked': sum(c['paths_checked'] for c in cross), 'agree': sum(c['agree'] for c in cross),
+                                         'disagreements': n_dis, 'skipped': sum(c['skipped'] for c in cross)} if cross else None,
         'units': [{'unit': r['unit'], 'kind': r.get('kind'), 'wall_s': r.get('wall_s'), 'stats': r.get('stats')} for r in results],
     }
     if not proof:
@@ -144,7 +151,7 @@ def finish(a, P, results, seed, t0):
         print('   UNDECIDED', u['where'], u['reason'][:300 if a.verbose else 120].replace('\n', ' '))
     print(f'{pid}: {n_ok}/{n_ob} obligations discharged, {len(undecided)} undecided, {len(violations)} refuted '
           f'({len(unlisted)} unlisted), {len(functions)} functions, {ev["wall_s"]}s')
-    if crashes and rc == 0:
+    if (crashes or n_dis) and rc == 0:
         return 3
     return rc
 
